@@ -74,7 +74,9 @@ class Iter(list):
     """A list of ints that is handed to the implementation as another kind of iterable."""
     kind = ""
 
-    def make(self):
+    def make(self, owner=None):
+        if self.kind == "@":          # the list object itself is the argument (`l.extend(l)`, `l[::2] = l`)
+            return owner
         if self.kind == "g":
             return (x for x in list(self))
         if self.kind == "t":
@@ -87,6 +89,10 @@ class Iter(list):
 def parse_list(s):
     s = s.strip()
     kind = ""
+    if s == "@":
+        r = Iter()
+        r.kind = "@"
+        return r
     if s and s[0] in "gti":
         kind, s = s[0], s[1:]
     s = s[1:-1].strip()
@@ -95,8 +101,21 @@ def parse_list(s):
     return r
 
 
-def _arg(x):
-    return x.make() if isinstance(x, Iter) else x
+def _arg(x, owner=None):
+    return x.make(owner) if isinstance(x, Iter) else x
+
+
+def resolve_self(op, contents):
+    """The same parsed op with a `@` argument (the list itself) replaced by the given contents."""
+    out = []
+    for x in op:
+        if isinstance(x, Iter) and x.kind == "@":
+            y = Iter(contents)
+            y.kind = ""
+            out.append(y)
+        else:
+            out.append(x)
+    return tuple(out)
 
 
 def parse_op(s):
@@ -123,7 +142,7 @@ def apply_op(l, op):
     if k == "si":
         l[op[1]] = op[2]
     elif k == "ss":
-        l[op[1]] = _arg(op[2])
+        l[op[1]] = _arg(op[2], l)
     elif k == "di":
         del l[op[1]]
     elif k == "ds":
@@ -131,9 +150,9 @@ def apply_op(l, op):
     elif k == "ap":
         l.append(op[1])
     elif k == "ex":
-        l.extend(_arg(op[1]))
+        l.extend(_arg(op[1], l))
     elif k == "ia":
-        l += _arg(op[1])
+        l += _arg(op[1], l)
     elif k == "im":
         l *= op[1]
     elif k == "in":
@@ -181,6 +200,7 @@ def exhaustive_single_ops(maxlen, idxs, steps, kind="tl", validator="id", base=1
             yield head + "ds " + sl
             for m in range(0, maxlen + 2):
                 yield head + "ss %s %s" % (sl, show_list(range(1, m + 1)))
+            yield head + "ss %s @" % sl
         for a, b in itertools.product(idxs, idxs):
             yield head + "ds %s %s 0" % (show_opt(a), show_opt(b))
         for i in ints:
@@ -191,7 +211,7 @@ def exhaustive_single_ops(maxlen, idxs, steps, kind="tl", validator="id", base=1
             yield head + "im %d" % i
         for x in list(range(base, base + n)) + [99]:
             yield head + "rm %d" % x
-        for o in ("ap 1", "ex []", "ex [1,2]", "ia []", "ia [1]", "ex g[1,2]", "ia g[1]", "ia i[1,2]", "ex t[1]", "cl", "rv", "so",
+        for o in ("ap 1", "ex []", "ex [1,2]", "ia []", "ia [1]", "ex g[1,2]", "ia g[1]", "ia i[1,2]", "ex t[1]", "ex @", "ia @", "cl", "rv", "so",
                   "sk 0 1", "sk 1 0", "sk 1 1", "sk 2 0", "sk 2 1", "sk 3 0", "sk 3 1"):
             yield head + o
 
@@ -211,6 +231,8 @@ def random_op(rng, n, wide=False):
         return rng.choice([0, 1, 2, 3, 5, 8, 9, 13, -1, -4]) if rng.random() < 0.8 else rng.randint(-20, 20)
 
     def items(k=None):
+        if rng.random() < 0.06:
+            return "@"
         k = rng.randint(0, 4) if k is None else k
         return rng.choice(["", "", "", "g", "t", "i"]) + show_list([item() for _ in range(k)])
     if r < 0.08:
